@@ -235,6 +235,15 @@ def handle (op : String) (args : List String) : Option String :=
     let ls := leavesRec params kvs outs
     pure ("wf=" ++ boolStr (wfParams params) ++ " clean=" ++ boolStr (cleanB ps outs fs ls) ++
       " leaves=" ++ toString ls.length)
+  | "keysok", [params, value] => do
+    -- the model's reading of the verification gate on a whole record
+    let params ← runP pParams params
+    let v ← runP pJ value
+    pure (boolStr (recordKeysVerified params v))
+  | "outname", [ty, id, on] => do
+    -- StructMember.GetOutFilename for a member / map entry / array element `id` of type `ty`
+    let ty ← runP pTy ty
+    pure (strHex (outFilename ty (← hexStr id) (← hexStr on)))
   | "wcut", [w, old, new, k] => do
     -- a record write cut after `k` units of progress: `a` = writeAtomicAt (temp file, rename),
     -- `i` = os.WriteFile in place; old = `N` (no record yet) | `S<hex>`; reply: record and `.tmp` sibling
